@@ -156,7 +156,16 @@ def impl_run(parser, tokens):
     # only pair.name matters to parse_expr: every other pair is given an empty span (an operator or operand that matched
     # the empty string, e.g. juxtaposition), which must change nothing
     pairs = [Pair(n, 0, 0 if (i + len(tokens)) % 2 == 1 else len(n), RuleFrame(n, 0)) for i, n in enumerate(tokens)]
-    stream = Pairs(pairs).stream()
+    # the stream comes from the enclosing pair, the way the calculator examples get it (expr_pair.stream()); when there are at
+    # least two tokens the same pair is first asked for a stream that is read to its end and thrown away: every call must hand
+    # out a fresh stream over the same pairs
+    parent = Pair("".join(tokens), 0, sum(len(n) for n in tokens), RuleFrame("expr", 0), children=pairs)
+    if len(tokens) % 3 == 2:
+        used = parent.stream()
+        while used.next() is not None:
+            pass
+        parent.inner().stream().next()
+    stream = parent.stream() if len(tokens) % 2 == 0 else parent.inner().stream()
     signal.signal(signal.SIGALRM, _on_alarm)
     signal.setitimer(signal.ITIMER_REAL, CASE_TIMEOUT_S)       # a parse that does not return is a finding, not a hang
     try:
